@@ -30,7 +30,7 @@ func (c25) ID() string { return "C25" }
 
 func (c25) Budget(tier string) int {
 	if tier == "thorough" {
-		return 8000
+		return 12000
 	}
 	return 600
 }
